@@ -144,11 +144,15 @@ def build(seq, names=NAMES, probe_kinds=None):
                 raise Invalid("nested function")
             if vis == "typedef":
                 st["shadow"] = True
-            if vis == "typedef" and v % 6 == 4:
+            if vis == "typedef" and v % 12 == 4:
                 raise Quarantined("decl.paren_typedef_name_parameter(F9a)")
-            if vis == "typedef" and v % 6 == 5:
+            if vis == "typedef" and v % 12 == 5:
                 raise Invalid("a typedef name cannot appear in a K&R identifier list")
-            forms = ["void f{f}(int {n}) {{", "void f{f}(int a{f}, int *{n}) {{", "int f{f}(int, int {n}) {{", "void f{f}(int {n}[], ...) {{", "void f{f}(char, long, int (*{n})(void)) {{", "int f{f}({n}) int {n}; {{"]
+            forms = ["void f{f}(int {n}) {{", "void f{f}(int a{f}, int *{n}) {{", "int f{f}(int, int {n}) {{", "void f{f}(int {n}[], ...) {{", "void f{f}(char, long, int (*{n})(void)) {{", "int f{f}({n}) int {n}; {{",
+                     # definitions without any declaration specifier (implicit int, which pycparser accepts)
+                     "f{f}(int {n}) {{", "*f{f}(int a{f}, int {n}, ...) {{", "static f{f}(int {n}) {{", "int (f{f}(int {n})) {{",
+                     # a function returning a pointer to function: only ITS parameters are in scope in the body
+                     "int (*f{f}(int {n}))(void) {{", "void (*(f{f})(int {n}, char c{f}))(int d{f}) {{"]
             out.append(forms[v % len(forms)].format(n=n, f=f))
             if v % len(forms) == 5:
                 st.setdefault("knr", set()).add(n)
